@@ -77,6 +77,9 @@ pub enum Op {
     RemoveReinsert(usize),
     /// cache fully (level None, limit 8) and then remove k: cached and uncached nodes mixed
     CacheThenRemove(usize),
+    /// build from the first N-1 patterns, cache fully, then insert the last pattern (a split of a
+    /// cached item must keep the case mode)
+    CacheBeforeLastInsert,
 }
 
 const IDS: [&str; 4] = ["0", "1", "2", "3"];
@@ -91,6 +94,12 @@ pub fn scenario<const N: usize, const L: usize, const GET: bool>(pats: [&'static
     let mut t: RegexTreeMap<u8> = RegexTreeMap::new(ci);
     let mut k = 0;
     while k < N {
+        if k == N - 1 {
+            if let Op::CacheBeforeLastInsert = op {
+                let left = t.cache(8, None);
+                assert!(left == 8 - t.cached_len() as u64);
+            }
+        }
         t.insert(pats[k], IDS[k], k as u8);
         k += 1;
     }
@@ -103,7 +112,7 @@ pub fn scenario<const N: usize, const L: usize, const GET: bool>(pats: [&'static
         k += 1;
     }
     match op {
-        Op::None => {}
+        Op::None | Op::CacheBeforeLastInsert => {}
         Op::Remove(r) => {
             assert!(t.remove(IDS[r]) == Some(r as u8));
             live[r] = false;
@@ -260,6 +269,10 @@ tree_harness!(c12_tree2_cache_none_8, 2, 2, ["ab", "a(.)"], false, Op::Cache(255
 tree_harness!(c12_tree2_cache_l0_1, 2, 2, ["ab", "a(.)"], false, Op::Cache(0, 1));
 tree_harness!(c12_tree2_cache_l1_1, 2, 2, ["ab", "a(.)"], false, Op::Cache(1, 1));
 tree_harness!(c12_tree2_cache_l1_8, 2, 2, ["ab", "a(.)"], false, Op::Cache(1, 8));
+tree_harness!(c12_tree2_ci_cache_before_insert, 2, 2, ["aB", "A(.)"], true, Op::CacheBeforeLastInsert);
+// ---- one pattern: the emptied tree keeps its case mode (RegexTreeMap::retain writes the root back)
+tree_harness!(c08_tree1_ci_retain_none_reinsert, 1, 2, ["aB"], true, Op::RetainNoneReinsert(0));
+tree_harness!(c08_tree1_ci_remove_reinsert, 1, 2, ["aB"], true, Op::RemoveReinsert(0));
 tree_harness!(c08_tree2_ci_retain_none_reinsert, 2, 2, ["aB", "A(.)"], true, Op::RetainNoneReinsert(0));
 tree_get_harness!(c08_tree2_get_after_remove, 2, 1, ["ab", "a(.)"], false, Op::Remove(1));
 tree_get_harness!(c08_tree3_get_same_pattern, 3, 1, ["ab", "a(.)", "ab"], false, Op::Replace(2));
